@@ -320,6 +320,8 @@ def deque_getitem(I, recv, o, args, kwargs, node):
     i = I.int_of(args[0])
     if not (isinstance(i, int) and i == 0):
         raise Unsupported('deque index other than 0')
+    if I.spec_mode:
+        return Opt(zbool(hn), items[0])
     if not I.branch(z3.Length(items) > 0, 'deque-nonempty'):
         I.raise_builtin('IndexError', node=node)
     return Opt(zbool(hn), z3.simplify(items[0]))
